@@ -25,6 +25,11 @@ def check_async(prog, ctx):
     env = engine.run_program(prog, check_c06=True)
     viol = oracles.clauses(env, "C06.")
     viol += oracles.alternation(env)
+    if not viol:
+        env_b = oracles.again(prog, env, check_c06=True)
+        if env_b is not None:
+            viol += oracles.second(oracles.clauses(env_b, "C06.") + oracles.alternation(env_b))
+            ctx.label("run-twice-on-one-scheduler")
     ctx.label("ctx>=2", len(env.ctxs) >= 2)
     ctx.label(">=2-tasks-in-ctx-across-flush", env.ctx_span_flush > 0)
     ctx.label("ctx-events>2", any(len(c.ev) > 3 for c in env.ctxs.values()))
